@@ -15,6 +15,19 @@ def ExtractRes.tok : ExtractRes → String
 /-- pow verdict token → (is it ok?) ; the model only needs ok / not ok and echoes the token -/
 def powOk (t : String) : Bool := t == "ok"
 
+/-- `-` = empty chain; otherwise comma-separated, one letter per element of `ClientCA.Certificate`:
+`n` not a parseable certificate, `t` / `f` the presented certificate verifies / does not verify with that element as the only root -/
+def parseChain (t : String) : Option (List ChainElem) :=
+  if t = "-" then some [] else
+  (t.splitOn ",").mapM fun
+    | "n" => some none | "t" => some (some true) | "f" => some (some false) | _ => none
+
+/-- explanation appended to the SPEC reason: which bundled (non-first) chain elements the presented certificate chains to -/
+def notIssuedWhy (chain : List ChainElem) : String :=
+  let idx := (List.range chain.length).filter fun i => i ≠ 0 ∧ chain[i]? = some (some true)
+  if idx.isEmpty then ""
+  else s!": it verifies only under ClientCA.Certificate[{",".intercalate (idx.map toString)}], bundled behind the client CA (= ClientCA.Certificate[0]) in the server's CA chain, which is not the client CA"
+
 def step (_ : Unit) (toks : List String) (rhs : String) : Unit × Verdict :=
   match toks with
   | ["mk2", id, hash, b64] =>
@@ -63,22 +76,30 @@ def step (_ : Unit) (toks : List String) (rhs : String) : Unit × Verdict :=
         if powOk pow then ((), .diff "ok") else if e ≠ pow then ((), .diff ("err," ++ pow)) else ((), .ok)
       | _ => ((), .bad "req rhs")
     | _, _, _ => ((), .bad "req args")
-  | ["renew", der, caOK, cn, xver, pow, powKey, certKey] =>
+  | ["renew", der, caOK, cn, xver, pow, powKey, certKey, chainTok] =>
     match parseBool caOK, hexToBytes cn, hexToBytes powKey,
-          (if certKey = "none" then some none else (hexToBytes certKey).map some) with
-    | some caOK, some cn, some powKey, some certKey =>
+          (if certKey = "none" then some none else (hexToBytes certKey).map some), parseChain chainTok with
+    | some caOK, some cn, some powKey, some certKey, some chain =>
+      -- `caOK` is the statement's "issued by the client CA": the presented certificate verifies (ClientAuth) with the client CA
+      -- certificate — element 0 of the server's ClientCA chain — as the only root.  It must agree with the chain token.
+      if der = "p" ∧ chain.head? ≠ none ∧ chain.head? ≠ some none ∧ chain.head? ≠ some (some caOK) then
+        ((), .bad "caOK disagrees with the verdict of chain element 0")
+      else
       -- the model's C31.Res carries only ok / not-ok here: any error token is echoed
       let powRes : C31.Res := if powOk pow then .ok else .badSig
-      let m : String := match renew (der == "e") (der == "p") caOK cn powRes powKey certKey with
+      let m : String := match renewChain (der == "e") (der == "p") chain cn powRes powKey certKey with
         | .ok c => s!"ok,{bytesToHex c.cn},{bytesToHex c.key}"
-        | .error .required => "err,required" | .error .parse => "err,parse" | .error .notOurCA => "err,notourca"
-        | .error .identity => "err,identity" | .error .panic => "panic" | .error .v1 => "err,v1"
-        | .error (.pow _) => "err,pow-" ++ pow | .error .notEd25519 => "err,noted25519" | .error .keyMismatch => "err,keymismatch"
+        | .error .noChain => "panic" | .error .caUnparsable => "err,caparse"
+        | .error (.renew .required) => "err,required" | .error (.renew .parse) => "err,parse"
+        | .error (.renew .notOurCA) => "err,notourca"
+        | .error (.renew .identity) => "err,identity" | .error (.renew .panic) => "panic" | .error (.renew .v1) => "err,v1"
+        | .error (.renew (.pow _)) => "err,pow-" ++ pow | .error (.renew .notEd25519) => "err,noted25519"
+        | .error (.renew .keyMismatch) => "err,keymismatch"
       match rhs.splitOn "," with
       | ["ok", ncn, nkey, ncaOK, nsame] =>
         match hexToBytes ncn, hexToBytes nkey, parseBool ncaOK, parseBool nsame with
         | some ncn, some nkey, some ncaOK, some nsame =>
-          if der ≠ "p" ∨ ¬ caOK then ((), .spec "renewed a certificate that was not issued by the client CA")
+          if der ≠ "p" ∨ ¬ caOK then ((), .spec ("renewed a certificate that was not issued by the client CA" ++ notIssuedWhy chain))
           else if xver ≠ "v2" then ((), .spec s!"renewed a certificate whose subject is not version 2 ({xver})")
           else if ¬ powOk pow then ((), .spec s!"renewed although the proof of work was rejected ({pow})")
           else if certKey ≠ some powKey then ((), .spec "renewed with a proof made by a key that is not the certificate's key")
@@ -88,7 +109,7 @@ def step (_ : Unit) (toks : List String) (rhs : String) : Unit × Verdict :=
           else if m ≠ s!"ok,{bytesToHex ncn},{bytesToHex nkey}" then ((), .diff m) else ((), .ok)
         | _, _, _, _ => ((), .bad "renew rhs")
       | _ => if m ≠ rhs then ((), .diff m) else ((), .ok)
-    | _, _, _, _ => ((), .bad "renew args")
+    | _, _, _, _, _ => ((), .bad "renew args")
   | _ => ((), .bad "unknown op")
 
 def main : IO Unit := runLoop () step
